@@ -267,6 +267,15 @@ func b2u(b bool) uint64 {
 
 // mk builds a term with light simplification (constant folding, identities).
 func mk(op termOp, w int, a ...*term) *term {
+	if len(a) == 0 {
+		switch op {
+		case opAnd:
+			return kbool(true)
+		case opOr:
+			return kbool(false)
+		}
+		panic("mk: no arguments")
+	}
 	allc := true
 	for _, x := range a {
 		if !x.isConst() {
